@@ -117,11 +117,11 @@ func checkC11() fw.Check {
 		MinNontrivial: 30,
 		Assumptions:   []string{"relaxed UDP/TCP source checking is not part of the isolation claim (no entry point enables it; SACK's relaxed mode is separated by the connection's sequence space)", "Linux build"},
 		Gen: func(tier string, seed int64) []fw.Case {
-			n := 40
-			nreq := 9
-			allocN := 100000
+			n := 100
+			nreq := 18
+			allocN := 200000
 			if tier == "thorough" {
-				n, nreq, allocN = 600, 60, 1100000
+				n, nreq, allocN = 2000, 180, 4400000
 			}
 			var cases []fw.Case
 			for i := 0; i < n; i++ {
